@@ -230,7 +230,7 @@ class _EntityBase(EntityProtocol):
     def update(self):
         """Update the entity from current data in mdib."""
         orig = self._mdib.descriptions.handle.get_one(self.handle)
-        self.descriptor.update_from_other_container(orig)
+        self.descriptor.update_from_other_container(copy.deepcopy(orig))
 
 
 class Entity(_EntityBase):
@@ -248,8 +248,8 @@ class Entity(_EntityBase):
     def update(self):
         """Update the entity from current data in mdib."""
         super().update()
-        orig = self._mdib.states.get_one(self.handle)
-        self.state.update_from_other_container(orig)
+        orig = self._mdib.states.descriptor_handle.get_one(self.handle)
+        self.state.update_from_other_container(copy.deepcopy(orig))
 
 
 class MultiStateEntity(_EntityBase):
@@ -279,13 +279,13 @@ class MultiStateEntity(_EntityBase):
         for state in list(self.states.values()):
             orig = states_dict.get(state.Handle)
             if orig is not None:
-                state.update_from_other_container(orig)
+                state.update_from_other_container(copy.deepcopy(orig))
             else:
                 self.states.pop(state.Handle)
         # add new states
         for handle, _ in states_dict.items():  # noqa: PERF102
             if handle not in self.states:
-                self.states[handle] = states_dict[handle].mk_copy()
+                self.states[handle] = copy.deepcopy(states_dict[handle])
 
     def new_state(self, state_handle: str | None = None) -> AbstractMultiStateContainer:
         """Create a new state."""
